@@ -85,6 +85,8 @@ FAMILY = [
     ("expression_types_partial", "QUOTE:(:)", "QUOTE:):(", '<p tal:content="quote:name">x</p>', "PageTemplate", "PageTemplate"),
     ("tokenizer_lambda", "LAMBDA:up", "LAMBDA:low", "<p>Hello</p>", "PageTemplate", "PageTemplate"),
     # ... or classes made by one factory (same module, same qualified name)
+    # two functions of one source line that differ in a default argument
+    ("tokenizer_lambda", "LAMBDA_D:up", "LAMBDA_D:low", "<p>Hello</p>", "PageTemplate", "PageTemplate"),
     ("expression_types_factory", "FACT:A-", "FACT:B-", '<p tal:content="mark:name">x</p>', "PageTemplate", "PageTemplate"),
     # an instance whose representation is the default one (class and
     # address): the restarted process has a different one at the same address
@@ -288,6 +290,15 @@ TOK_UP = lambda body, filename=None: _tok(body, filename, str.upper)    # noqa: 
 TOK_LOW = lambda body, filename=None: _tok(body, filename, str.lower)   # noqa: E731
 
 
+def _tok_with(f):
+    # (the ubiquitous default-argument binding: same code, nothing captured)
+    return lambda body, filename=None, _f=f: _tok(body, filename, _f)
+
+
+TOK_D_UP = _tok_with(str.upper)
+TOK_D_LOW = _tok_with(str.lower)
+
+
 def make_mark(mark: str):
     """A factory of expression-type classes: every class it returns has the
     same module and the same qualified name."""
@@ -396,6 +407,9 @@ class C15(CheckBase):
             if k == "tokenizer" and isinstance(v, str) and \
                     v.startswith("LAMBDA:"):
                 v = TOK_UP if v.endswith("up") else TOK_LOW
+            if k == "tokenizer" and isinstance(v, str) and \
+                    v.startswith("LAMBDA_D:"):
+                v = TOK_D_UP if v.endswith("up") else TOK_D_LOW
             if k == "tokenizer" and v == "iter_text":
                 from chameleon.tokenize import iter_text
                 v = iter_text
